@@ -9,8 +9,8 @@ from ..util import Tok, fmt_vec, HookAcc, DTYPES
 from ..c07_table import OPS, BY_OPNAME, HARNESS, NPT, LD, NOT_COMPILABLE, opname, c_common, c_promote
 
 CLAIM = dict(
-    technique="runtime monitoring: sanitizer-instrumented execution of every element-wise function on operands with unique values; two-layer oracle - (1) NumPy-broadcast index labels designate which operand elements feed each output element and the library's own scalar functor, applied to exactly those scalars in a plain loop, gives the reference element (bit-exact comparison), (2) NumPy's ufunc / extended-precision formula as a cross-check where semantics coincide with C++",
-    text="All 70 ufuncs except clip (does not compile on the unchanged tree), where, the 18 activations (default and explicit parameters) and the 11 outer_* wrappers (+ generic view::outer) are executed as lazy views on dynamic ndarrays / scalars / transposed and sliced views with data from the case file. For every case: result shape == NumPy broadcast shape (outer: shape(a)+shape(b)); element i == scalar_functor(operand elements NumPy's broadcasting designates for i) bit-exactly; element type of the view and of view(i...) == decltype(scalar_functor(a,b)); values cross-checked against NumPy (exact for +,-,*,/,comparisons,logical,bitwise,min/max,rounding,sqrt; <=4 ulp against a long-double reference for libm-backed functions; 64 eps for composite activation formulas). ASan/UBSan/libstdc++ assertions and the bounds hooks watch the same executions. Held-on-observed.",
+    technique="runtime monitoring: sanitizer-instrumented execution of every element-wise function on operands with unique values; two-layer oracle - (1) NumPy-broadcast index labels designate which operand elements feed each output element and the library's own scalar functor, applied to exactly those scalars in a plain loop, gives the reference element (exact comparison: same bits up to the sign of zero), (2) NumPy's ufunc / extended-precision formula as a cross-check where semantics coincide with C++",
+    text="All 70 ufuncs except clip (does not compile on the unchanged tree), where, the 18 activations (default and explicit parameters) and the 11 outer_* wrappers (+ generic view::outer) are executed as lazy views on dynamic ndarrays / scalars / transposed and sliced views with data from the case file. For every case: result shape == NumPy broadcast shape (outer: shape(a)+shape(b)); element i == scalar_functor(operand elements NumPy's broadcasting designates for i) exactly (same bits up to the sign of zero); element type of the view and of view(i...) == decltype(scalar_functor(a,b)); values cross-checked against NumPy (exact for +,-,*,/,comparisons,logical,bitwise,min/max,rounding,sqrt; <=4 ulp against a long-double reference for libm-backed functions; 64 eps for composite activation formulas). ASan/UBSan/libstdc++ assertions and the bounds hooks watch the same executions. Held-on-observed.",
     note="Trusted: NumPy broadcasting of label arrays, the harness' own odometer, C++ usual arithmetic conversions as implemented in c07_table.c_common. Only dynamic ndarrays, scalars and transpose/slice views are operands (other kinds: C09). One float and one int element type per function plus 8 mixed pairs on a reduced op set. Domains (division by zero, shift counts, pow/log arguments, signed overflow) are generator preconditions. view::clip is not exercised: it does not compile for any operand kind (baseline tests commented out).",
     ref="DESIGN.md 4/C07")
 TARGETS_QUICK = [(h, "asan") for h in HARNESS]
@@ -459,10 +459,12 @@ def parse_x(x):
 
 
 def _bits_equal(a, b, tag):
+    """same value (floats: same bits up to the sign of zero and the NaN payload - IEEE leaves fmax/fmin(+0,-0) open and
+    the compiler is free to expand the call differently at two call sites)"""
     if tag[0] == "f":
         if a != a or b != b:
             return a != a and b != b
-        return a == b and math.copysign(1.0, a) == math.copysign(1.0, b)
+        return a == b
     return a == b
 
 
